@@ -96,7 +96,7 @@ def _api(ctx, case):
 def gen_ip_lines(rng, fcfg, nlines, near=True):
     """Labelled lines with v4/v6/mask/preserved tokens, near misses and benign words."""
     out = []
-    pres = [ipaddress.ip_network(a) for a in (fcfg.get("pa") or [])]
+    pres = ipgen.v4nets(fcfg.get("pa"))
     pool4 = [rng.getrandbits(32) for _ in range(6)]
     pool6 = [rng.getrandbits(128) for _ in range(3)] + [(0x20010DB8 << 96) | rng.getrandbits(32), 1, 0]
     # trap originals: addresses whose IMAGE is special (mask-shaped IPv4 values; IPv6 link-local, multicast,
